@@ -373,6 +373,12 @@ class FlowMixin:
                     self.set_path_value(node, Const(False), st, fr)
                 elif isinstance(cur, (BitV, Lin)) or (isinstance(cur, Sym) and cur.ty == "int"):
                     self.set_path_value(node, Const(0), st, fr)
+                    # every local that holds the very same abstract value is zero as well
+                    env = st.envs[fr.fid]
+                    ck_ = cur.key()
+                    for nm, vv in list(env.items()):
+                        if hasattr(vv, "key") and not isinstance(vv, Ref) and norm(vv).key() == ck_:
+                            env[nm] = Const(0)
                     l = as_lin(cur)
                     if l is not None:
                         self.add_fact(st, l, "==0")
@@ -400,6 +406,10 @@ class FlowMixin:
                     l = as_lin(cur)
                     if l is not None and l.terms:
                         self.add_fact(st, l, "!=0")
+                    if isinstance(cur, BitV):
+                        nz = set(st.extra.get("nonzero", ()))
+                        nz.add(cur.key())
+                        st.extra["nonzero"] = nz
             return
         if isinstance(node, ast.Call) and isinstance(node.func, ast.Name):
             if node.func.id == "isinstance" and len(node.args) == 2 and isinstance(node.args[0], (ast.Name, ast.Attribute)):
